@@ -1,4 +1,150 @@
-(* C09 placeholder while the correspondence is being established *)
-From Cfg Require Import Model.Dispatch Model.DispatchSpec.
-Example C09_placeholder : exec (mkCfg nil true) init nil = Some (init, nil).
-Proof. reflexivity. Qed.
+(* C09 Commands are gated by authentication and answered exactly once.
+   Property theorems only; proofs live in Proofs/Dispatch.v.  Model: Model/Dispatch.v
+   (HandleReadFrame, HandleCommand, dispatchCommand and the per-request handlers), specification
+   predicates: Model/DispatchSpec.v. *)
+From Coq Require Import List NArith Bool Arith.
+From Cfg Require Import Model.Dispatch Model.DispatchSpec Proofs.Dispatch.
+Import ListNotations.
+Open Scope N_scope.
+
+(* ---- gate: for ALL configurations, states and commands ---- *)
+
+(* An open connection that has not authenticated answers every command without a
+   connect request by closing with bad request (3501); nothing else is visible: no
+   reply and no application handler event. *)
+Theorem C09_gate :
+  forall g s c,
+    s_closed s = false -> s_unusable s = false -> s_auth s = false -> has KConnect c = false ->
+    handle_command g s c
+    = Some (set_closed s, [OIssue (c_id c) (expects c); OClose 3501], false).
+Proof. exact gate_command. Qed.
+Print Assumptions C09_gate.
+
+(* ... whatever else the frame contains. *)
+Theorem C09_gate_frame :
+  forall g s c cs m,
+    s_closed s = false -> s_unusable s = false -> s_auth s = false -> has KConnect c = false ->
+    handle_frame g s (c :: cs) m
+    = Some (set_closed s, [OIssue (c_id c) (expects c); OClose 3501]).
+Proof. exact gate_frame. Qed.
+Print Assumptions C09_gate_frame.
+
+(* ---- pong rule: for ALL states and pong-shaped commands (id 0, no send) ---- *)
+
+Theorem C09_pong_without_ping :
+  forall g s c,
+    s_closed s = false -> s_unusable s = false -> s_auth s = true ->
+    is_pong c = true -> s_ping s = false ->
+    handle_command g s c
+    = Some (set_closed s, [OIssue (c_id c) (expects c); OClose 3501], false).
+Proof. exact pong_unexpected. Qed.
+Print Assumptions C09_pong_without_ping.
+
+(* a pong that answers a ping is consumed silently and clears the ping, so that a second
+   pong falls under the previous theorem *)
+Theorem C09_pong_after_ping :
+  forall g s c,
+    s_closed s = false -> s_unusable s = false -> s_auth s = true ->
+    is_pong c = true -> s_ping s = true ->
+    handle_command g s c = Some (set_ping s false, [OIssue (c_id c) (expects c)], true).
+Proof. exact pong_expected. Qed.
+Print Assumptions C09_pong_after_ping.
+
+(* ---- the rules over ALL runs: any sequence of frames (any commands, ids, duplicate
+   ids, several request fields, malformed or empty frames), server pings and callback
+   completions in any order.  [steps_ok] checks, with the connection state re-derived
+   from the outputs alone: no application handler other than connect runs before a
+   successful connect reply; a frame starting with a non-connect command on an
+   unauthenticated connection yields exactly [close 3501]; a lone pong without an
+   outstanding ping yields exactly [close 3501] and one with a ping yields nothing. *)
+Theorem C09_rules_on_all_runs :
+  forall g ls s' os,
+    exec g init ls = Some (s', os) -> Forall label_wf ls -> steps_ok ost0 ls os = true.
+Proof. exact exec_steps_ok_init. Qed.
+Print Assumptions C09_rules_on_all_runs.
+
+(* ---- exactly one reply: over ALL runs and ALL completion orders ---- *)
+
+(* never more replies with an id than reply-expecting commands sent with that id *)
+Theorem C09_once_at_most :
+  forall g ls s' os id,
+    exec g init ls = Some (s', os) -> (nrep id (concat os) <= sentE id ls)%nat.
+Proof. exact once_at_most. Qed.
+Print Assumptions C09_once_at_most.
+
+(* while the connection is open, replies + callbacks still held = such commands sent *)
+Theorem C09_once_pending :
+  forall g ls s' os id,
+    exec g init ls = Some (s', os) -> s_closed s' = false ->
+    (nrep id (concat os) + npend id s' = sentE id ls)%nat.
+Proof. exact once_pending. Qed.
+Print Assumptions C09_once_pending.
+
+(* connection open and every callback completed: exactly one reply per such command *)
+Theorem C09_once_exact :
+  forall g ls s' os id,
+    exec g init ls = Some (s', os) -> s_closed s' = false -> s_pend s' = [] ->
+    nrep id (concat os) = sentE id ls.
+Proof. exact once_exact. Qed.
+Print Assumptions C09_once_exact.
+
+(* Full statement of the property text ("every command that carries an id"): holds
+   when no one-way command carries an id ... *)
+Theorem C09_once_exact_strict_partial :
+  forall g ls s' os q,
+    exec g init ls = Some (s', os) -> (q = true -> s_pend s' = []) ->
+    (forall c, In c (flat_map cmds_of ls) -> c_id c <> 0 -> expects c = true) ->
+    exact_ok q ls os = true.
+Proof. exact exec_exact_ok. Qed.
+Print Assumptions C09_once_exact_strict_partial.
+
+(* ... and is false without that hypothesis: a Send command with id 7 on an open,
+   quiescent connection is never answered (client.go handleSend). *)
+Theorem C09_once_strict_refuted :
+  exists g ls s' os id,
+    exec g init ls = Some (s', os) /\ s_closed s' = false /\ s_pend s' = [] /\
+    id <> 0 /\ sent id ls = 1%nat /\ nrep id (concat os) = 0%nat.
+Proof. exact once_strict_refuted. Qed.
+Print Assumptions C09_once_strict_refuted.
+
+(* the decidable predicates evaluated on implementation behaviour hold on every model run *)
+Theorem C09_model_atmost :
+  forall g ls s' os, exec g init ls = Some (s', os) -> atmost_ok ls os = true.
+Proof. exact exec_atmost_ok. Qed.
+Print Assumptions C09_model_atmost.
+
+Theorem C09_model_exact_nosend :
+  forall g ls s' os q,
+    exec g init ls = Some (s', os) -> (q = true -> s_pend s' = []) -> exact_nosend_ok q ls os = true.
+Proof. exact exec_exact_nosend_ok. Qed.
+Print Assumptions C09_model_exact_nosend.
+
+(* ---- non-vacuity ---- *)
+Definition ex_cfg := mkCfg [KSubscribe; KRpc; KSend] true.
+Definition ex_connect := LFrame [mkCmd 1 [KConnect] 0 false SOk] false.
+
+(* authenticated run with an asynchronous rpc completed after a later synchronous one *)
+Example C09_ex_async :
+  exec ex_cfg init [ex_connect;
+                    LFrame [mkCmd 11 [KRpc] 0 false SAsync; mkCmd 2 [KRpc] 0 false SOk] false;
+                    LComplete 0 ROk]
+  = Some (mkSt false false true false [] [] 1,
+          [[OIssue 1 true; OHandler KConnect 1; OReply 1 0];
+           [OIssue 11 true; OHandler KRpc 11; OIssue 2 true; OHandler KRpc 2; OReply 2 0];
+           [OReply 11 0]]).
+Proof. vm_compute. reflexivity. Qed.
+
+(* gate and pong outcomes are reachable *)
+Example C09_ex_gate :
+  exec ex_cfg init [LFrame [mkCmd 2 [KSubscribe] 1 false SOk] false]
+  = Some (mkSt true false false false [] [] 0, [[OIssue 2 true; OClose 3501]]).
+Proof. vm_compute. reflexivity. Qed.
+Example C09_ex_pong :
+  exec ex_cfg init [ex_connect; LPing; LFrame [mkCmd 0 [] 0 false SOk] false;
+                    LFrame [mkCmd 0 [] 0 false SOk] false]
+  = Some (mkSt true false true false [] [] 0,
+          [[OIssue 1 true; OHandler KConnect 1; OReply 1 0]; []; [OIssue 0 false];
+           [OIssue 0 false; OClose 3501]]).
+Proof. vm_compute. reflexivity. Qed.
+Example C09_ex_wf : Forall label_wf [ex_connect; LPing; LComplete 0 (RErr 100)].
+Proof. repeat constructor. Qed.
